@@ -127,7 +127,8 @@ DoParse ==
           /\ w' = newW
           /\ bits' = IF Variant # "keep" /\ ntl THEN r.bits \ (r.lit .. e - 1) ELSE r.bits
           /\ sorted' = cov
-          /\ ops' = IF EmitOps THEN Append(ops, [op |-> "parse", flags |-> fl]) ELSE ops
+          /\ ops' = IF EmitOps THEN Append(ops, [op |-> "parse", flags |-> fl,
+                                                  expect |-> [n |-> newW - w, seqs |-> r.seqs]]) ELSE ops
     /\ UNCHANGED <<t, avail, cf>>
 
 (* the rest of the data arrives: the suffix array no longer covers the     *)
